@@ -428,6 +428,33 @@ type EmbCustomObj struct {
 	R int `json:"r"`
 }
 
+// SpacedTags: blanks inside a json tag are part of what they touch. " omitempty" is not the omitempty option (the field is
+// always written and read), " b" and "c " are names with a blank, "omitempty " is no option either.
+type SpacedTags struct {
+	A int     `json:"a, omitempty"`
+	B string  `json:" b"`
+	C *int    `json:"c ,omitzero"`
+	D bool    `json:"d,omitempty "`
+	E float64 `json:"e, omitzero,omitempty"`
+	F []int   `json:" ,omitempty"`
+}
+
+// CustomObj2's entry names other properties than its fields ("p" as a string, "extra"; no "hidden").
+type CustomObj2 struct {
+	P      int `json:"p"`
+	Hidden int `json:"hidden"`
+}
+
+type EmbCustomObj2 struct {
+	CustomObj2
+	R int `json:"r"`
+}
+
+type EmbCustomObj2Ptr struct {
+	*CustomObj2
+	R int `json:"r"`
+}
+
 // --- recursive types (must yield an error) ---
 
 type Rec struct {
@@ -512,7 +539,7 @@ type BadDeep struct {
 
 // PlainData lists the types of C04's domain (C09 uses those without standard-library marshalers).
 var PlainData = []reflect.Type{
-	reflect.TypeFor[Scalars](), reflect.TypeFor[Tags](), reflect.TypeFor[Inner](), reflect.TypeFor[Pointers](), reflect.TypeFor[Containers](),
+	reflect.TypeFor[Scalars](), reflect.TypeFor[Tags](), reflect.TypeFor[SpacedTags](), reflect.TypeFor[[]SpacedTags](), reflect.TypeFor[Inner](), reflect.TypeFor[Pointers](), reflect.TypeFor[Containers](),
 	reflect.TypeFor[NamedKinds](), reflect.TypeFor[EmbByValue](), reflect.TypeFor[EmbByPointer](), reflect.TypeFor[EmbNested](), reflect.TypeFor[EmbUnexportedType](),
 	reflect.TypeFor[EmbTwo](), reflect.TypeFor[EmbShadowSame](), reflect.TypeFor[EmbDeep](), reflect.TypeFor[PtrThenVal](), reflect.TypeFor[ValThenPtr](), reflect.TypeFor[[]PtrThenVal](),
 	reflect.TypeFor[OuterAfterMid](), reflect.TypeFor[OuterAfterMids](), reflect.TypeFor[[]OuterAfterMid](), reflect.TypeFor[TriAmbiguous](), reflect.TypeFor[TriDeepLater](), reflect.TypeFor[[]TriAmbiguous](),
